@@ -44,8 +44,9 @@ def make_replay(prop, v, path, seed):
     if p is not None and p.returncode == 1:
         try:
             rp["failing_input"] = json.loads(p.stdout.strip().split("\n")[-1])
+            rp["failing_input"]["seed"] = seed
         except ValueError:
-            pass
+            rp["failing_input"] = {"raw": p.stdout.strip().split("\n")[-1], "seed": seed}
     elif p is not None and p.returncode == 0:
         rp["search_note"] = "native enumerator found no failing input in its domain: " + p.stdout.strip()[-200:]
     else:
